@@ -650,6 +650,10 @@ def r04_4(q, R, spec):
         # a is built from the 1st `self.fields.next()` only, b from the 2nd only, and an absent or empty column gives None.
         helpers = {b["key"]: b for b in q.bodies if b.get("name") and (b.get("impl_ty") or "").endswith("tiny_line::TinyLine")
                    and not b.get("impl_trait") and b["name"] not in ("action", "action_string") and "body" in b}
+        # ... or a private free function of the module the impl lives in
+        mod = fn["key"].split("::{impl")[0] + "::"
+        helpers.update({b["key"]: b for b in q.bodies if b.get("name") and not b.get("impl_ty") and "body" in b
+                        and b["key"].startswith(mod) and "::" not in b["key"][len(mod):]})
 
         def tuple_matches(b, depth=0):
             """the `match (a, b)` of the function, or of the private TinyLine helper it hands the decoding to (the helper is inlined
